@@ -1044,6 +1044,68 @@ pub fn oracle_c06(case: &SimCase, run: &SimRun) -> Verdict {
         }
     }
 
+    // a change noticed during (or after) a run that then fails is not lost: the target must
+    // start a new run (unless something it depends on is itself stuck behind a failure)
+    {
+        let blocked_dep = |j: usize| -> bool {
+            let jid = g.ids(j);
+            let last_fail = h.last_before(fq, |e| {
+                matches!(e, Ev::Finish(x, false) | Ev::SpawnFail(x) | Ev::SvcSpawnFail(x) if *x == jid)
+            });
+            let last_ok = h.last_before(fq, |e| {
+                matches!(e, Ev::Completed(x) | Ev::Skipped(x) | Ev::SvcStart(x) if *x == jid)
+            });
+            last_fail.is_some() && last_ok.is_none_or(|o| o < last_fail.unwrap())
+        };
+        for (k, e) in run.events[..fq].iter().enumerate() {
+            let t = match e {
+                Ev::Finish(t, false) | Ev::SpawnFail(t) => t,
+                _ => continue,
+            };
+            let i = match g.index_of(t) {
+                Some(i) => i,
+                None => continue,
+            };
+            if g.trans_deps(i).iter().any(|&d| blocked_dep(d)) {
+                continue;
+            }
+            let begin = match h.last_before(k, |e| matches!(e, Ev::CheckBegin(x) if x == t)) {
+                Some(b) => b,
+                None => continue,
+            };
+            let fsn = format!("fs-notify {}", t);
+            let last_notice = run.events[begin..fq]
+                .iter()
+                .rposition(|e| match e {
+                    Ev::Notify(x) => x == t,
+                    Ev::Stim(s) => *s == fsn,
+                    _ => false,
+                })
+                .map(|p| p + begin);
+            if let Some(m) = last_notice {
+                let after = m.max(k);
+                let again = run.events[after..fq]
+                    .iter()
+                    .any(|e| matches!(e, Ev::CheckBegin(x) if x == t));
+                // a later failure of the same target is judged at its own event
+                let later_fail = run.events[k + 1..fq]
+                    .iter()
+                    .any(|e| matches!(e, Ev::Finish(x, false) | Ev::SpawnFail(x) if x == t));
+                if !again && !later_fail {
+                    features.insert("change-during-run-that-fails");
+                    return Verdict {
+                        violation: Some(format!(
+                            "{}: its input changed (event #{}) during or after the run that failed (run #{}..#{}), but it never started a new run",
+                            t, m, begin, k
+                        )),
+                        ..v
+                    };
+                }
+                v.classes.push("change-around-failing-run".into());
+            }
+        }
+    }
+
     // final state: every target not blocked by a failure is up to date
     for &i in &clo {
         let id = g.ids(i);
